@@ -252,6 +252,36 @@ def run(rep, tier):
                         errs.append(m["Break"])
                 ok = ok and bool(errs) and not any(f.reachable_from([t]) & {e.block for e in fb} for t in errs)
         rep.ob("R03.4", "complexity-first|%s" % name, ok, "validate_complexity must run (and be obeyed) before the filter is evaluated", (vc[0].where() if vc else f.file))
+    # ------------------------------------------------------------------ R03.5 one notion of "the documents"
+    rep.rule("R03.5", "every evaluator of the filter algebra answers over the same set of documents: B-tree index hits are intersected with the live id set "
+             "(Not, _id predicates, contains and get answer from it), so equal boolean expressions stay equal while a posting exists for an id that is not live", floor=1)
+    f = prog.fn(FBW)
+    scans = f.calls_named(r"try_range_query_ids$")
+    if not scans:
+        raise CheckerFault("anchor missing: the B-tree scan of filter_by_field_with")
+    for sc in scans:
+        clos = [prog.fns[o[1].cid] for a in sc.args for o in f.slice_back_op(a) if o[0] == "create" and o[1].cid in prog.fns]
+        pushers = [k for k in clos if any(re.search(r"UniqueVec::<T>::push$|Vec::<T, A>::push$", e.name or "") for e in k.calls())]
+        live_ok = False
+        for k in pushers:
+            # a membership test whose receiver derives from the captured guard of doc_ids_index (an upvar the enclosing function
+            # filled from a read of that field)
+            ups = {u["n"] for u in k.upvars} if getattr(k, "upvars", None) else set()
+            for kk in [k] + list(prog.closures_of(k)):
+                for e in kk.calls():
+                    if not re.search(r"::contains$", e.name or ""):
+                        continue
+                    for o in kk.slice_back_op(e.args[0]) if e.args else []:
+                        if o[0] == "upvar":
+                            # what did the enclosing function capture under that name?
+                            locs = f.var_locals(o[1])
+                            if any("doc_ids_index" in f.slice_fields({"c": {"l": l_}}) for l_ in locs) or "doc_ids" in str(o[1]):
+                                live_ok = True
+        rep.ob("R03.5", "index-hits-intersected-with-live-ids|filter_by_field_with", bool(pushers) and live_ok,
+               "the B-tree arm of filter_by_field_with emits every id the postings hold: while an add is parked on its document PUT (or after a cancelled add poisoned "
+               "the handle) `age >= 0` returns [1, 2] but Not(Not(F)) and And([F, _id >= 0]) return [1] - the index evaluator and the id-set evaluators disagree "
+               "about which documents exist", sc.where())
+
     return rep.finish(EXPLAIN)
 
 
